@@ -7,7 +7,7 @@ tag=$(basename $(dirname $patch))
 wt=/tmp/benignwt-$$
 base=${3:-HEAD}
 git -C /repo worktree add -q --detach $wt $base || exit 2
-git -C $wt apply $patch || { echo "patch does not apply at $base"; git -C /repo worktree remove --force $wt; exit 2; }
+git -C $wt apply --3way $patch >/dev/null 2>&1 || { echo "patch does not apply at $base"; git -C /repo worktree remove --force $wt; exit 2; }
 for p in C01 C02 C03 C04 C05 C06 C07 C08 C09 C10 C11 C12 C13 C14 C15 C16 C17 C18 C20; do
   VERIF_SEED=$seed SIM_REPO=$wt ./bin/simcheck run --prop $p --tier quick --nomin --builddir /tmp/benignbuild-$$ > /tmp/benign-$tag-$p.log 2>&1; code=$?
   echo "$tag $p exit=$code $(grep -a -m1 '^violation\|^HARNESS' /tmp/benign-$tag-$p.log | cut -c1-260)"
